@@ -197,22 +197,38 @@ FIXED_INST = {
     "base_q": "qn", "sub_q": "qn,extra", "base_p": "tag,load",
     "narrow_p": "tag,load,base_p.load,more", "narrow_last": "tag,load,own,base_p.load",
     "derive_p": "tag*,load", "both_p": "tag*,load,base_p.load,more",
+    "dd_a": "x,y", "dd_b": "x,y,bb", "dd_c": "x*,y", "dd_d": "x*,y,bb", "dd_e": "x*,y,bb",
+    "literal_number": "the_value", "int_literal": "the_value,literal_number.the_value", "arrays": "u,ou,o,nested,named,lu,plain,neg",
     "unbounded": "a,b,c", "vehicle": "wheels", "car": "wheels", "truck": "wheels", "electric": "wheels,volts", "duck": "wheels",
 }
 FIXED_ENTS = [("base_q", []), ("sub_q", ["base_q"]), ("base_p", []), ("narrow_p", ["base_p"]), ("narrow_last", ["base_p"]),
               ("derive_p", ["base_p"]), ("both_p", ["narrow_p"]), ("vehicle", []), ("car", ["vehicle"]), ("truck", ["vehicle"]),
-              ("electric", ["vehicle"]), ("amphibian", ["vehicle"]), ("duck", ["amphibian"]), ("unbounded", [])]
+              ("electric", ["vehicle"]), ("amphibian", ["vehicle"]), ("duck", ["amphibian"]), ("unbounded", []),
+              ("literal_number", []), ("int_literal", ["literal_number"]), ("arrays", []),
+              ("dd_a", []), ("dd_b", ["dd_a"]), ("dd_c", ["dd_a"]), ("dd_d", ["dd_b", "dd_c"]), ("dd_e", ["dd_c", "dd_b"])]
 # bounds of aggregates declared without them, as harness/h_dict.cc prints them
 FIXED_BOUNDS = {("unbounded", "a"): "aggr=LIST b1=unset b2=unset", ("unbounded", "c"): "aggr=BAG b1=unset b2=unset",
-                ("unbounded", "b"): "aggr=LIST b1=0 b2=2147483647"}
-FIXED_INNER = {("unbounded", "b"): "[ aggr=SET b1=unset b2=unset"}
+                ("unbounded", "b"): "aggr=LIST b1=0 b2=2147483647",
+                # UNIQUE / OPTIONAL elements
+                ("arrays", "u"): "aggr=ARRAY b1=1 b2=3 auniq=1 aopt=0 elem=integer", ("arrays", "ou"): "aggr=ARRAY b1=0 b2=2 auniq=1 aopt=1 elem=real",
+                ("arrays", "o"): "aggr=ARRAY b1=0 b2=2 auniq=0 aopt=1 elem=real", ("arrays", "nested"): "aggr=ARRAY b1=1 b2=2 auniq=0 aopt=0",
+                ("arrays", "named"): "aggr=ARRAY b1=1 b2=4 auniq=1 aopt=0 elem=base_q", ("arrays", "lu"): "aggr=LIST b1=0 b2=2147483647 auniq=1 aopt=0 elem=integer",
+                ("arrays", "plain"): "aggr=ARRAY b1=1 b2=2 auniq=0 aopt=0 elem=integer", ("arrays", "neg"): "aggr=ARRAY b1=-2 b2=2 auniq=0 aopt=0 elem=real"}
+FIXED_INNER = {("unbounded", "b"): "[ aggr=SET b1=unset b2=unset", ("arrays", "nested"): "[ aggr=ARRAY b1=1 b2=2 auniq=1 aopt=0 elem=integer ]"}
+FIXED_TYPES = {"corner_array": "aggr=ARRAY b1=1 b2=4 auniq=1 aopt=0 elem=base_q", "around_zero": "aggr=ARRAY b1=-3 b2=-1 auniq=0 aopt=0 elem=integer"}
 FIXED_KINDS = {("narrow_p", "base_p.load"): "redefining", ("narrow_last", "base_p.load"): "redefining",
+               ("int_literal", "literal_number.the_value"): "redefining",
                ("derive_p", "base_p.tag"): "derived", ("both_p", "base_p.tag"): "derived"}
 
 
+known_ = []
+
+
 def fixed_schema_problems(bdir):
-    """redeclared attributes and implicit subtypes (schemas/c02_fixed.exp): list of differences from the schema"""
+    """redeclared attributes and implicit subtypes (schemas/c02_fixed.exp): list of differences from the schema;
+    known_: the differences of the open finding diamond_with_derived_redeclaration (dd_d, dd_e)"""
     out_ = []
+    del known_[:]
     sl = schema_lib(bdir, os.path.join(VERIF, "schemas", "c02_fixed.exp"))
     if not sl["ok"]:
         return ["the code exp2cxx emits for schemas/c02_fixed.exp does not compile: %s" % sl["log"][-300:]]
@@ -227,6 +243,10 @@ def fixed_schema_problems(bdir):
                 want = table.get((p_[1], p_[2]))
                 if want and want not in l:
                     out_.append("c02_fixed: attribute %s.%s: the dictionary says '%s', the schema gives '%s'" % (p_[1], p_[2], " ".join(p_[6:])[:120], want))
+    for l in out.split("\n"):
+        p_ = l.split()
+        if p_[:1] == ["TYPE"] and len(p_) >= 2 and p_[1] in FIXED_TYPES and FIXED_TYPES[p_[1]] not in l:
+            out_.append("c02_fixed: type %s: the dictionary says '%s', the schema gives '%s'" % (p_[1], " ".join(p_[2:])[:120], FIXED_TYPES[p_[1]]))
     inst, kinds = {}, {}
     for l in out.split("\n"):
         p_ = l.split()
@@ -236,6 +256,9 @@ def fixed_schema_problems(bdir):
             kinds[(p_[1], p_[2])] = p_[3].split("=", 1)[1]
     for en, want in sorted(FIXED_INST.items()):
         if inst.get(en) != want:
+            if en in ("dd_d", "dd_e"):
+                known_.append("c02_fixed: a new %s exposes attributes [%s], the schema gives [%s]" % (en, inst.get(en), want))
+                continue
             out_.append("c02_fixed: a new %s exposes attributes [%s], the schema gives [%s] (name* = derived, written as an asterisk; "
                         "base_p.x = the redeclaring attribute, not written)" % (en, inst.get(en), want))
     if "amphibian" in inst and inst["amphibian"] != "none":
@@ -499,6 +522,8 @@ def main(tier, seed):
         for msg in fixed_schema_problems(bdir):
             oracle_fail += 1
             res.violation(msg, {"input_file": os.path.join(VERIF, "schemas", "c02_fixed.exp"), "replay": "exp2cxx schemas/c02_fixed.exp, compile, run harness/h_dict.cc"})
+        for msg in known_:
+            res.violation(msg, {"input_file": os.path.join(VERIF, "schemas", "c02_fixed.exp")}, signature="diamond_with_derived_redeclaration")
     except BuildError as e:
         res.violation("build failed: %s" % e, {"error": str(e)}, found_input=False)
     shutil.rmtree(wroot, ignore_errors=True)
